@@ -4144,6 +4144,7 @@ def apply_delta(
         raise ApplyDeltaError(
             f"Unexpected source buffer size: {src_size} vs {len(src_buf)}"
         )
+    out_len = 0
     while index < delta_length:
         cmd = ord(delta[index : index + 1])
         index += 1
@@ -4164,14 +4165,16 @@ def apply_delta(
             if (
                 cp_off + cp_size < cp_size
                 or cp_off + cp_size > src_size
-                or cp_size > dest_size
+                or cp_size > dest_size - out_len
             ):
                 break
             out.append(src_buf[cp_off : cp_off + cp_size])
+            out_len += cp_size
         elif cmd != 0:
             if index + cmd > delta_length:
                 raise ApplyDeltaError("delta truncated in insert op")
             out.append(delta[index : index + cmd])
+            out_len += cmd
             index += cmd
         else:
             raise ApplyDeltaError("Invalid opcode 0")
